@@ -33,14 +33,15 @@ PROFILE = netgen.profile(dcline=False, oos=0.04, open_prob=0.3, nb_max=8, max_pe
 
 @st.composite
 def _op(draw):
-    k = draw(st.sampled_from(["edit", "edit", "toggle", "switch", "switch", "open_bb", "add", "drop", "run", "run", "run", "run"]))
+    k = draw(st.sampled_from(["edit", "edit", "toggle", "switch", "switch", "open_bb", "add", "drop", "add_gen", "slack_handover", "slack_back",
+                            "run", "run", "run", "run", "run"]))
     if k == "edit":
         return {"op": "edit", "kind": draw(st.sampled_from(["load_p", "load_scaling", "sgen_q", "gen_vm", "gen_p", "tap", "line_len", "sn_mva"])),
                 "sel": draw(st.integers(0, 30)), "val": draw(st.sampled_from([0.0, 0.5, 0.8, 1.25, 2.0]))}
     if k == "toggle":
         return {"op": "toggle", "table": draw(st.sampled_from(["line", "load", "sgen", "trafo", "gen", "bus", "ext_grid", "ext_grid"])),
                 "sel": draw(st.integers(0, 30))}
-    if k in ("switch", "add", "drop", "open_bb"):
+    if k in ("switch", "add", "drop", "open_bb", "add_gen", "slack_handover", "slack_back"):
         return {"op": k, "sel": draw(st.integers(0, 30))}
     calc = draw(st.sampled_from(RUNS))
     o = {"op": "run", "calc": calc}
@@ -113,6 +114,22 @@ def apply_edit(net, o):
     elif k == "add":
         b = net.bus.index[sel % len(net.bus)]
         pp.create_load(net, b, p_mw=0.01 * netgen.LEVELS.get(float(net.bus.at[b, "vn_kv"]), {"s": 1.0})["s"], q_mvar=0.0)
+    elif k == "add_gen":
+        # a further PV generator at a bus that already has a voltage-controlling element (same setpoint)
+        if len(net.gen):
+            i = pick("gen")
+            b, v = net.gen.at[i, "bus"], float(net.gen.at[i, "vm_pu"])
+        else:
+            i = pick("ext_grid")
+            b, v = net.ext_grid.at[i, "bus"], float(net.ext_grid.at[i, "vm_pu"])
+        pp.create_gen(net, b, p_mw=0.05 * netgen.LEVELS.get(float(net.bus.at[b, "vn_kv"]), {"s": 1.0})["s"], vm_pu=v)
+    elif k == "slack_handover" and len(net.gen):
+        # all external grids go out of service, a generator becomes the slack
+        net.ext_grid["in_service"] = False
+        net.gen.at[pick("gen"), "slack"] = True
+    elif k == "slack_back":
+        net.ext_grid["in_service"] = True
+        net.gen["slack"] = False
     elif k == "drop" and len(net.load) > 1:
         from pandapower.toolbox import drop_elements_simple
         drop_elements_simple(net, "load", [pick("load")])
